@@ -112,6 +112,35 @@ let handle fields impl : string option * string list =
     (* Util.run compares observables literally except for error classes: a panic message is informative only *)
     let model = if model = "panic" && starts impl "panic" then impl else model in
     (Some model, !fails)
+  (* ---- sequences on ONE validator over fixed accumulators, all four eras (no oracle) ---- *)
+  | ["sequence"; consts; _src; epochs; roots; sums; events] ->
+    if consts <> consts_field () then (Some "driver: compiled constants differ from K_header.v", []) else
+    let (_, epochs) = sparse epochs and (_, roots) = sparse roots and (_, sums) = sparse sums in
+    let evs = List.map (fun e ->
+      match String.split_on_char '~' e with
+      | [number; _hdr; hash; proof; truth] ->
+        ((((None, n_of_dec number), b (Util.bytes_of_hex hash)), b (Util.bytes_of_hex proof)), truth)
+      | _ -> failwith "event") (String.split_on_char ';' events) in
+    let res = run_history_sha true epochs roots sums (List.map fst evs) in
+    let tok = function Ok _ -> "ok" | Err _ -> "e" | Panic -> "p" in
+    let model = "ok " ^ String.concat "," (List.map (fun (v, _) -> tok v) res) in
+    (* C03_history_step_verdict: the verdict of call k is validate_header_and_proof of ITS OWN inputs over the cache of that moment,
+       C03_verdict_ignores_cache_before_shanghai: before Shanghai it does not depend on any state at all.  So whatever the validator
+       remembers from earlier calls (e.g. that this header was once proved) must not change a verdict: the per-call clauses
+       (a)-(c) are the specification of every step. *)
+    let fails = ref [] in
+    (match String.split_on_char ' ' impl with
+     | ["ok"; iv] ->
+       List.iteri (fun i (((_, truth), (mv, _)), v) ->
+         let step = Printf.sprintf " step=%d truth=%s impl=%s spec=%s after-earlier-calls-on-the-same-validator" (i + 1) truth v (tok mv) in
+         if v = "ok" && mv <> Ok () then
+           fails := ((if starts truth "wrongslot" then "accepted-wrong-slot" else if starts truth "corrupt" then "accepted-corrupted-sibling"
+                      else "accepted-forged-proof") ^ step) :: !fails;
+         if truth = "honest" && v <> "ok" then fails := ("rejected-honest-proof" ^ step) :: !fails;
+         if v = "p" then fails := ("validator-panics-other" ^ step) :: !fails)
+         (List.combine (List.combine evs res) (String.split_on_char ',' iv))
+     | _ -> fails := ["sequence-observable-malformed " ^ impl]);
+    (Some model, List.rev !fails)
   (* ---- histories on ONE validator: the provider's cache is state (Model: validate_step / run_history) ---- *)
   | ["history"; consts; mode; k0; truth_list; events] ->
     if consts <> consts_field () then (Some "driver: compiled constants differ from K_header.v", []) else
